@@ -130,9 +130,18 @@ def gen_spec(rng, n_zones=None, allow_fed=True, ext=None, maxtime=None, grid=Tru
                     hasF.append((z['cur'], c['key'], 'GOVLIKE'))
                 if c.get('cap'):
                     hasF.append((z['cur'], c['key'], 'CAP'))
-    for _ in range(rng.choice([0, 1, 2, 3])):
+    has_gold = any(z['gov']['form'] in ('gold', 'gold_cb') for z in zones)
+    if ext and cross and not has_gold and rng.random() < 0.4:
+        # a "rest of the world" sector living in the external sector's own (numeraire) currency
+        spec['row'] = True
+        hasF.append(('NUMERAIRE', 'EXT', 'ROW'))
+    for _ in range(rng.choice([0, 1, 2, 3]) + (1 if spec.get('row') else 0)):
         a = rng.choice(hasF)
         b = rng.choice(hasF)
+        if spec.get('row') and not any('ROW' in (g['src'][1], g['dst'][1]) for g in spec['gifts']):
+            # make sure the numeraire-zone sector takes part in at least one cross-currency flow
+            other = rng.choice([h for h in hasF if h[2] != 'ROW'])
+            a, b = (('NUMERAIRE', 'EXT', 'ROW'), other) if rng.random() < 0.6 else (other, ('NUMERAIRE', 'EXT', 'ROW'))
         if a == b:
             continue
         if a[0] != b[0] and not (ext and cross):
@@ -211,7 +220,8 @@ def build(spec, model=None, **kw):
 
 
 def _build(spec, model=None, holder=None, order_seed=None, codes=None, ckey_map=None, solve=True, ext_first=None,
-          max_iter=3000, unused_ext=False, tol=None, order_perm=None):
+          max_iter=3000, unused_ext=False, tol=None, order_perm=None, codes_after_first_country=False,
+           query_zone=False, interleave_model=False):
     """Build (and solve) the model described by spec with the REAL classes.
 
     order_seed: None = canonical declaration order; int = a random linear extension per country.
@@ -265,6 +275,8 @@ def _build(spec, model=None, holder=None, order_seed=None, codes=None, ckey_map=
             ck = c['key']
             ccode = ckey_map.get(ck, ck)
             cls = Country if c['role'] == 'single' else Region
+            if interleave_model:
+                Model()      # an unrelated (empty) model object is instantiated in between
             country = cls(mod, ccode, 'Country ' + ccode, currency=z['cur'])
             b.countries[ck] = country
             b.zone_of[ck] = z['cur']
@@ -343,8 +355,30 @@ def _build(spec, model=None, holder=None, order_seed=None, codes=None, ckey_map=
             b.order.setdefault(ck, [st[0] for st in ordered])
             for name, deps, fn in ordered:
                 fn()
+                if query_zone:
+                    # the public zone API is used while the model is still being put together
+                    country.CurrencyZone.GetSectors()
+                    try:
+                        country.CurrencyZone.LookupSector(code(ck, 'HH'))
+                    except Exception:
+                        pass
+            if interleave_model:
+                # another, unrelated model is created while this one is under construction
+                other = Model()
+                oc = Country(other, 'ZZ', 'unrelated', currency='ZZZ')
+                Household(oc, 'HH', 'unrelated household')
+            if codes_after_first_country and not getattr(b, '_early_codes_done', False):
+                # a user dumps / inspects the model mid-construction (Model.LogInfo() does this): full codes are
+                # generated while the model has fewer countries than it will end up with
+                b._early_codes_done = True
+                mod._GenerateFullSectorCodes()
     if own_model and (spec['ext'] or unused_ext) and not ext_first:
         ExternalSector(mod)
+    if spec.get('row') and mod.ExternalSector is not None:
+        from sfc_models.sector import Sector as _Sec
+        S[('EXT', 'ROW')] = _Sec(mod.ExternalSector, 'ROW', 'Rest of the world', has_F=True)
+        b.countries['EXT'] = mod.ExternalSector
+        b.zone_of['EXT'] = 'NUMERAIRE'
     # ---- wiring (after all declarations)
     for w in wiring:
         w()
@@ -478,4 +512,4 @@ def shape_of(spec):
         port = ''.join(sorted(set((c['hh']['portfolio'] or '-')[0] for c in regs)))
         parts.append('%s:%s:%s:%s' % ('fed' if z['kind'] == 'federation' else 'one', f, firms, port))
     return '|'.join(parts) + ('|ext' if spec['ext'] else '') + ('|g%d' % len(spec['gifts'])) + \
-        ('|i%d' % len(spec['imports']))
+        ('|i%d' % len(spec['imports'])) + ('|row' if spec.get('row') else '')
